@@ -726,7 +726,8 @@ fn fractions_probe(conv: &Converter, layers: &[UnitsFile], judged: &mut u64, ski
         let eff = match (entries.len(), levels.len()) {
             (1, _) => levels.iter().fold(entries[0], |acc, l| or(acc, *l)),
             (0, 0) => FractionsConfigHelper::default(),
-            (0, 1) => levels[0],
+            // no entry of its own: the most specific level that exists is taken as a whole (quantity, else system, else all)
+            (0, _) => levels[0],
             _ => {
                 *skipped += 1;
                 continue;
@@ -906,6 +907,13 @@ fn shipped(ctx: &mut Ctx) {
                 &["[[quantity]]\nquantity = \"mass\"\nbest = { metric = [\"mg\", \"g\", \"kg\"], imperial = [\"oz\", \"lb\", \"tsp\"] }\n"],
                 &["[[quantity]]\nquantity = \"time\"\nbest = [\"ml\"]\n"],
                 &["[fractions.unit]\ntsp = false\n"],
+                // `all` next to system levels that say otherwise
+                &["[fractions]\nall = true\n"],
+                &["[fractions]\nall = { enabled = false }\n"],
+                &["[fractions]\nall = { enabled = true, max_denominator = 2 }\nmetric = { enabled = true, max_denominator = 8 }\n", "[fractions]\nall = false\n"],
+                // the same unit declared again, the second time with SI expansion
+                &["[[quantity]]\nquantity = \"mass\"\n[quantity.units]\nmetric = [{ names = [\"tonne\", \"tonnes\"], symbols = [\"t\"], ratio = 1000000 }]\n", "[[quantity]]\nquantity = \"mass\"\n[quantity.units]\nmetric = [{ names = [\"tonne\", \"tonnes\"], symbols = [\"t\"], ratio = 1000000, expand_si = true }]\n"],
+                &["[[quantity]]\nquantity = \"mass\"\n[quantity.units]\nmetric = [{ names = [\"tonne\"], symbols = [\"tn\"], ratio = 1000000, expand_si = true }]\n"],
                 // an edit that sets a value to what is usually the default
                 &["[extend.units]\nF = { difference = 0 }\n"],
                 &["[extend.units]\nC = { difference = -0.0, ratio = 1 }\nfahrenheit = { ratio = 1 }\n"],
